@@ -38,6 +38,19 @@ def main():
         assert rc == 0, out
         os.remove(patch)
         mut_fails, mut_summary = failing(d)
+        if mut_fails != clean_fails:
+            # one repository test is flaky under load: repeat both runs and
+            # keep the tests that fail every time
+            open(patch, "w").write(diff)
+            sh("patch -R -p1 -s -i seed.diff", cwd=d)
+            again, s2 = failing(d)
+            clean_fails = sorted(set(clean_fails) & set(again))
+            clean_summary += s2
+            sh("patch -p1 -s -i seed.diff", cwd=d)
+            os.remove(patch)
+            again, s2 = failing(d)
+            mut_fails = sorted(set(mut_fails) & set(again))
+            mut_summary += s2
         rc1, out1 = sh("/venv/bin/python DEMO.py", cwd=d)
         env = dict(os.environ, RIG_REPO=d)
         rcq, outq = sh("/verif/check %s --no-evidence --no-regressions %s" % (pid, " ".join(extra)), env=env)
